@@ -116,8 +116,10 @@ func smtName(s string) string {
 	var sb strings.Builder
 	for _, r := range s {
 		switch {
-		case r >= 'a' && r <= 'z', r >= 'A' && r <= 'Z', r >= '0' && r <= '9', r == '_', r == '.', r == '!', r == '$', r == '#':
+		case r >= 'a' && r <= 'z', r >= 'A' && r <= 'Z', r >= '0' && r <= '9', r == '_', r == '.', r == '!', r == '$':
 			sb.WriteRune(r)
+		case r == '#':
+			sb.WriteString("$h")
 		case r == '*':
 			sb.WriteString("$p")
 		case r == '[':
